@@ -7,6 +7,7 @@ import (
 	"math/rand"
 	"net/smtp"
 	"strings"
+	"sync"
 	"text/template"
 	"time"
 
@@ -26,6 +27,10 @@ func NewSMTPMailer(server string, auth smtp.Auth) *SMTPMailer {
 	random := rand.New(rand.NewSource(time.Now().UnixNano()))
 	return &SMTPMailer{server, auth, random}
 }
+
+// smtpRandMutex guards the random source of every SMTPMailer, the struct is
+// copied by value so the lock cannot live inside it.
+var smtpRandMutex sync.Mutex
 
 // SMTPMailer uses smtp to actually send e-mails
 type SMTPMailer struct {
@@ -68,6 +73,11 @@ func (s SMTPMailer) Send(ctx context.Context, mail authboss.Email) error {
 func (s SMTPMailer) boundary() string {
 	const alphabet = "abcdefghijklmnopqrstuvwxyz0123456789"
 	buf := &bytes.Buffer{}
+
+	// *rand.Rand is not safe for concurrent use and Send is called from a
+	// goroutine per e-mail.
+	smtpRandMutex.Lock()
+	defer smtpRandMutex.Unlock()
 
 	for i := 0; i < 23; i++ {
 		buf.WriteByte(alphabet[s.rand.Int()%len(alphabet)])
